@@ -83,8 +83,10 @@ def main(argv=None):
     if report.vacuous:
         for msg in report.vacuous:
             print("VACUOUS: %s" % msg)
-        print("HARNESS-ERROR property=%s vacuity guard failed" % pid)
-        return 2
+        if not new:
+            # (with violations present a starved branch may be a consequence of the defect: report those)
+            print("HARNESS-ERROR property=%s vacuity guard failed" % pid)
+            return 2
     if new:
         # one replay file per distinct finding key, smallest case first
         os.makedirs("/verif/replays", exist_ok=True)
